@@ -327,7 +327,7 @@ func (p *Pipe) render() (string, error) {
 		for j, c := range p.MU {
 			var body string
 			var ok bool
-			if c.Op == "noread" || c.Op == "notfunc" || c.Op == "arity2" || c.Op == "twice" || c.Op == "twice-short" {
+			if c.Op == "noread" || c.Op == "notfunc" || c.Op == "arity2" || c.Op == "twice" || c.Op == "twice-short" || c.Op == "lazyret" {
 				body, ok = "7", true
 			} else if c.Op == "topsize" {
 				body, ok = renderTerm("l", c, ts+1+j, p)
@@ -343,6 +343,9 @@ func (p *Pipe) render() (string, error) {
 				continue
 			case "twice-short":
 				parts = append(parts, "c"+strconv.Itoa(j)+": l->l.first()+l.first()")
+				continue
+			case "lazyret": // the consumer hands back a lazy list built on its copy: consumed after multiUse returned
+				parts = append(parts, "c"+strconv.Itoa(j)+": l->l.map(x->x+1)"+[]string{"", ".top(2)", ".accept(x->x%2=0)"}[c.N%3])
 				continue
 			case "notfunc":
 				parts = append(parts, "c"+strconv.Itoa(j)+": 3")
@@ -416,7 +419,7 @@ func (p *Pipe) script(host HostTables) (*Script, error) {
 // closure-calling stages (those whose callback can carry cost/probe/fail wrappers)
 func hasClosure(op string) bool {
 	switch op {
-	case "top", "skip", "plus", "sum", "size", "string", "first", "last", "single", "lazy", "lazyk", "contains", "topsize", "noread", "notfunc", "arity2", "twice", "twice-short", "multiUse":
+	case "top", "skip", "plus", "sum", "size", "string", "first", "last", "single", "lazy", "lazyk", "contains", "topsize", "noread", "notfunc", "arity2", "twice", "twice-short", "lazyret", "multiUse":
 		return false
 	}
 	return true
